@@ -276,9 +276,9 @@ pub trait AggValidBasic<T: IsNone>: IntoIterator<Item = T> + Sized {
     where
         T::Inner: Number,
     {
-        let (n, sum) = self.vfold_n(T::Inner::zero(), |acc, x| acc + x);
+        let (n, sum) = self.vfold_n(0f64, |acc, x| acc + x.f64());
         if n >= 1 {
-            sum.f64() / n as f64
+            sum / n as f64
         } else {
             f64::NAN
         }
